@@ -1588,7 +1588,8 @@ def state_table(repo, unparsed):
     got = find_fn(dsrc, r"pub fn reset\(&mut self, program: Program, is_pedantic: bool\)")
     flat = re.sub(r"\s+", "", got[1]) if got else ""
     want = [("program", "self.program.reset(program);"), ("graphics", "self.graphics.reset();"),
-            ("graphics.is_pedantic", "self.graphics.is_pedantic=is_pedantic;"), ("loop_budget", "self.loop_budget.reset();")]
+            ("graphics.is_pedantic", "self.graphics.is_pedantic=is_pedantic;"), ("loop_budget", "self.loop_budget.reset();"),
+            ("value_stack", "self.value_stack.clear();")]
     for f, w in want:
         rows.append(("Engine::reset", f, "reset" if w in flat else "MISSING", "Engine::reset"))
     arms = {}
